@@ -95,6 +95,11 @@ func cellLocalOnly(cell ssa.Value, fn *ssa.Function) bool {
 				return false
 			}
 		}
+		// the variable's address must not be handed to anybody who could write through it (`grpc.Header(&headers)`,
+		// `row.Columns(&id, …)`, a deferred helper given `&err`): its direct stores would not be all its writes
+		if addressEscapes(a, 0) {
+			return false
+		}
 		return true
 	case *ssa.FreeVar:
 		b := freeVarBinding(a)
@@ -111,6 +116,38 @@ func cellLocalOnly(cell ssa.Value, fn *ssa.Function) bool {
 			}
 		}
 		return true
+	}
+	return false
+}
+
+// addressEscapes: the address v (of a local variable, or of a part of it) is passed to a call, stored, sent, converted or
+// merged — anything but loaded from, stored to, and captured by this function's own closures (whose stores storesTo sees).
+func addressEscapes(v ssa.Value, d int) bool {
+	if d > 3 {
+		return true
+	}
+	refs := v.Referrers()
+	if refs == nil {
+		return false
+	}
+	for _, r := range *refs {
+		switch x := r.(type) {
+		case *ssa.UnOp, *ssa.DebugRef, *ssa.MakeClosure:
+		case *ssa.Store:
+			if x.Val == v {
+				return true
+			}
+		case *ssa.FieldAddr:
+			if addressEscapes(x, d+1) {
+				return true
+			}
+		case *ssa.IndexAddr:
+			if addressEscapes(x, d+1) {
+				return true
+			}
+		default:
+			return true
+		}
 	}
 	return false
 }
